@@ -39,9 +39,9 @@ func genericTree(n parsley.Node) []interface{} {
 func fileAfter(content []byte, pre [][]byte, variant int) (*text.File, *parsley.FileSet, *text.Reader, int) {
 	fs := parsley.NewFileSet()
 	for i, p := range pre {
-		fs.AddFile(text.NewFile(fmt.Sprintf("pre%d", i), p))
+		fs.AddFile(mkFile(fmt.Sprintf("pre%d", i), p))
 	}
-	f := text.NewFile("f", content)
+	f := mkFile("f", content)
 	var rd *text.Reader
 	if variant&1 == 1 {
 		rd = text.NewReader(f)
